@@ -72,7 +72,7 @@ def load_known():
 # ----------------------------------------------------------------------------------------------
 # reflective-checker properties (C08, C07, C05): shared flow
 # ----------------------------------------------------------------------------------------------
-def reflective(prop, tier, seed, oracle_module, level_note, extra_obligations=None, ncorr=None, oracle_args=None, gprops=True, seq_obligations=None, theorems=None, theory_obligations=None, gprops_from=None, pre_cmds=None, extra_harness=None):
+def reflective(prop, tier, seed, oracle_module, level_note, extra_obligations=None, ncorr=None, oracle_args=None, gprops=True, seq_obligations=None, theorems=None, theory_obligations=None, gprops_from=None, pre_cmds=None, extra_harness=None, nthorough=None):
     t0 = time.time()
     problems = []       # broken obligations / correspondences (strings)
     with coqbuild.Lock():
@@ -157,7 +157,7 @@ def reflective(prop, tier, seed, oracle_module, level_note, extra_obligations=No
     if os.path.exists(rp):
         report = json.load(open(rp))
     # translator validation + prediction correspondence
-    n = (ncorr if tier == 'quick' and ncorr else None) or (6 if tier == 'quick' else 300)
+    n = (ncorr if tier == 'quick' and ncorr else None) or (6 if tier == 'quick' else (nthorough or 300))
     oargs = oracle_args or []
     corr = harness(oracle_module, oargs + ['--mode', 'check', '--seed', str(seed), '--n', str(n), '--tier', tier])
     if 'error' in corr:
@@ -478,7 +478,7 @@ def check_C15(tier, seed):
                       'Everything else is translation-validation level: the written file is parsed back with an independent namelist reader and compared with the object and the surface on every run '
                       '(NFP, LASYM, MPOL, NTOR cap, mode lines with VMEC\'s m*theta - n*nfp*phi convention, axis arrays to 8 digits, coefficient arrays left on the object, no state leaking through the mutable default argument).',
                       gprops=False, seq_obligations=['props/C15.v', 'props/C14_fourier.v', 'props/C15_file.v'], theory_obligations=['VmecEmit', 'TrigSum'],
-                      extra_harness=[('tie_vmec', []), ('tie_fourier', [])],
+                      extra_harness=[('tie_vmec', []), ('tie_fourier', [])], nthorough=120,
                       theorems=['C15_phiedge', 'C15_curtor', 'C15_pressure', 'C15_file.C15_file_surface_sym', 'C15_file.C15_file_surface_asym', 'C15_file.C15_file_ranges',
                                 'C15_file.C15_default_ranges', 'C15_file.C15_ntor_header', 'VmecEmit.read_RBC', 'VmecEmit.read_ZBS', 'VmecEmit.read_RBS', 'VmecEmit.read_ZBC',
                                 'VmecEmit.read_sym_no_asym', 'VmecEmit.emit_in_range', 'VmecEmit.unguarded_asym_entry_lost'])
@@ -490,7 +490,7 @@ def check_C18(tier, seed):
                       'everything computed is a function of the stored parameters: ObjModel). The convergence clauses (spectral decay of solved profiles, second-order convergence of grid extrema and of the trapezoid Boozer angle) '
                       'are statements of numerical analysis about the exact solution of a nonlinear periodic ODE; they are exercised by the harness on resolution ladders gated by measured spectral tails and are NOT proved.',
                       gprops=False, extra_obligations=['gprops/C16_layout.v'], seq_obligations=['props/C18.v'],
-                      pre_cmds=[[PY, os.path.join(HERE, 'gen_obj.py'), '--repo', REPO]],
+                      pre_cmds=[[PY, os.path.join(HERE, 'gen_obj.py'), '--repo', REPO]], nthorough=60,
                       theorems=['C18_even_is_next_odd', 'C18_always_odd', 'C18_same_object'])
 
 
